@@ -38,7 +38,10 @@ Definition captured (a : action) (fs : list field) : goval :=
 Definition app_data (a : action) (fs : list field) : jv :=
   encode (GMap [(bs "actionContext", captured a fs)]).
 
-Inductive reply := ROk (bid : Z) | RFailCode | RError.
+(* what the sync request returns: an accepted registration; a failure result (with or without a transaction
+   error code); a transport error; or, without any error, something that is not a BranchRegisterResponse value
+   (nil, a response of another kind, a pointer to a response) *)
+Inductive reply := ROk (bid : Z) | RFailCode | RError | RMalformed.
 
 Inductive pevent :=
 | ERegister (btype : N) (resource xid : bytes) (data : jv)
